@@ -343,4 +343,14 @@ theorem rangeCount_cast (start stop step : Rat) :
     split <;> simp
 
 
+/-- facts the regenerated symbolic ties may need when the code takes a fast path on a constant -/
+@[simp, grind =] theorem floor_zero : Rat.floor 0 = 0 := by
+  rw [show (0 : Rat) = ((0 : Int) : Rat) by simp, Rat.floor_intCast]
+
+@[simp, grind =] theorem ceil_zero : Rat.ceil 0 = 0 := by
+  rw [show (0 : Rat) = ((0 : Int) : Rat) by simp, Rat.ceil_intCast]
+
+@[simp, grind =] theorem truncZ_zero : truncZ 0 = 0 := by simp [truncZ]
+
+
 end SE.Audio
